@@ -30,6 +30,7 @@ import (
 	"sync"
 	"testing"
 
+	"github.com/alephium/wormhole-fork/node/pkg/common"
 	"github.com/btcsuite/btcutil/base58"
 )
 
@@ -709,6 +710,23 @@ func (n *fakeNode) serve(w http.ResponseWriter, r *http.Request) {
 			n.fail(w, 500)
 			return
 		}
+		// a contract lives in exactly one group - the last byte of its id - and a call is executed against the world state of
+		// the group it names: asked in any other group the node does not find the contract, every call of the request fails
+		if raw := base58.Decode(addr); len(raw) == 33 {
+			wrong := false
+			for _, c := range req.Calls {
+				wrong = wrong || c.Group != int32(raw[32])
+			}
+			if wrong {
+				rs := make([]string, len(req.Calls))
+				for i := range rs {
+					rs[i] = `{"type":"CallContractFailed","error":"contract does not exist in this group"}`
+				}
+				n.log = append(n.log, "ti:"+addr+":"+strings.Join(calls, "+")+">wronggroup")
+				n.reply(w, 200, `{"results":[`+strings.Join(rs, ",")+`]}`)
+				return
+			}
+		}
 		st, body := a.body(methods)
 		sh := a.shape
 		if sh == "" {
@@ -728,6 +746,102 @@ func (n *fakeNode) serve(w http.ResponseWriter, r *http.Request) {
 func sortedLog(l []string) []string {
 	c := append([]string{}, l...)
 	sort.Strings(c)
+	return c
+}
+
+// ---------------------------------------------------------------------------------------------
+// the repository's shipped configurations, read by the production loader
+
+// shippedCfg is one of configs/alephium/{mainnet,testnet,devnet}.json as a real guardian of that network gets it: read through
+// common.ReadConfigsByNetwork (the call cmd/guardiand/node.go makes), to be handed to NewAlephiumWatcher with
+// isMainnet = (network == "mainnet") like node.go does.
+type shippedCfg struct {
+	net    string
+	file   string // path relative to the repository root
+	cc     *common.ChainConfig
+	bridge []byte
+	govId  []byte
+	gov    string
+	levels []int // every integer 0..255 the file contains anywhere: what a floor taken from the configuration could be
+	minCL  int   // the file's `minimalConsistencyLevel` (the minimum the token-bridge contract accepts), -1 if absent
+}
+
+var shippedNets = []string{"mainnet", "testnet", "devnet"}
+
+func collectSmallInts(v interface{}, out map[int]bool) {
+	switch x := v.(type) {
+	case float64:
+		if x >= 0 && x <= 255 && x == float64(int(x)) {
+			out[int(x)] = true
+		}
+	case string:
+		if k, err := strconv.Atoi(x); err == nil && k >= 0 && k <= 255 {
+			out[k] = true
+		}
+	case []interface{}:
+		for _, y := range x {
+			collectSmallInts(y, out)
+		}
+	case map[string]interface{}:
+		for _, y := range x {
+			collectSmallInts(y, out)
+		}
+	}
+}
+
+var shippedCache map[string]*shippedCfg
+
+// shipped loads the configuration of one network. The loader looks for `configs/` next to the executable; the test binary gets
+// a symbolic link there that points at the repository's own directory (the package directory is the working directory).
+func shipped(net string) *shippedCfg {
+	if c, ok := shippedCache[net]; ok {
+		return c
+	}
+	if shippedCache == nil {
+		shippedCache = map[string]*shippedCfg{}
+		exe, err := os.Executable()
+		if err != nil {
+			panic("verif harness: " + err.Error())
+		}
+		root, err := filepath.Abs(filepath.Join("..", "..", "..", "configs"))
+		if err != nil {
+			panic("verif harness: " + err.Error())
+		}
+		link := filepath.Join(filepath.Dir(exe), "configs")
+		if err := os.Symlink(root, link); err != nil && !os.IsExist(err) {
+			panic("verif harness: cannot link the shipped configs next to the test binary: " + err.Error())
+		}
+	}
+	bc, err := common.ReadConfigsByNetwork(net)
+	if err != nil {
+		panic("verif harness: the production loader does not read the shipped configuration of " + net + ": " + err.Error())
+	}
+	c := &shippedCfg{net: net, file: "configs/alephium/" + net + ".json", cc: bc.Alephium}
+	c.bridge, _ = hex.DecodeString(c.cc.Contracts.TokenBridge)
+	c.govId, _ = hex.DecodeString(c.cc.Contracts.Governance)
+	if len(c.bridge) != 32 || len(c.govId) != 32 {
+		panic("verif harness: contract ids in " + c.file)
+	}
+	c.gov = contractAddressOf(c.govId)
+	raw, err := os.ReadFile(filepath.Join("..", "..", "..", c.file))
+	if err != nil {
+		panic("verif harness: " + err.Error())
+	}
+	var doc interface{}
+	json.Unmarshal(raw, &doc)
+	c.minCL = -1
+	if top, ok := doc.(map[string]interface{}); ok {
+		if v, ok := top["minimalConsistencyLevel"].(float64); ok {
+			c.minCL = int(v)
+		}
+	}
+	set := map[int]bool{}
+	collectSmallInts(doc, set)
+	for k := range set {
+		c.levels = append(c.levels, k)
+	}
+	sort.Ints(c.levels)
+	shippedCache[net] = c
 	return c
 }
 
@@ -766,6 +880,9 @@ func TestVerifAlphWatch(t *testing.T) {
 	}
 	if part == "c09" || part == "all" {
 		g.genC09()
+	}
+	if part == "c04" { // "every honest guardian observing the same message signs the same 32 bytes": what the two delivery paths publish
+		g.genC04()
 	}
 	g.emit("end end") // lets the check tell a complete case file from one cut short
 	keys := make([]string, 0, len(g.dist))
